@@ -83,7 +83,7 @@ Proof.
   change (oneof_text v1_data_valid (or_text (Some (T "OFXSGML")) (T "OFXSGML"))) with (OK (T "OFXSGML") : result text). cbn [bind].
   rewrite Ive. cbn [bind].
   assert (IC : integer_conv v1_version_len ve = OK ve).
-  { unfold integer_conv, v1_version_len. change (Z.of_N (10 ^ 3)) with 1000%Z. destruct (1000 <=? ve)%Z eqn:E; [lia|reflexivity]. }
+  { unfold integer_conv, v1_version_len. change (Z.of_N (10 ^ 3)) with 1000%Z. destruct (1000 <=? Z.abs ve)%Z eqn:E; [lia|reflexivity]. }
   rewrite IC. cbn [bind].
   rewrite (or_text_some se) by exact Nse. rewrite Ose. cbn [bind].
   rewrite (or_text_some en) by exact Nen. rewrite Oen. cbn [bind].
